@@ -30,7 +30,9 @@ var (
 	// model of conversion: mixing the two versions up is then visible as "the wrong objects"). Not in Kinds; used by C18.
 	Dual1 = &sim.Kind{Group: "dual.ex", Version: "v1", Resource: "duals", Kind: "Dual", Namespaced: true, StoreKey: "dual.ex|duals@v1"}
 	Dual2 = &sim.Kind{Group: "dual.ex", Version: "v2", Resource: "duals", Kind: "Dual", Namespaced: true, StoreKey: "dual.ex|duals@v2"}
-	Kinds = []*sim.Kind{ThingBeta, NoThingBeta, Thing, NoThing, CThing, Leaf, Widget, CWidget, Other, Gadget}
+	// PlainThing: a parent kind for which the server keeps no metadata.generation (like several built-in kinds)
+	PlainThing = &sim.Kind{Group: "ex.io", Version: "v1", Resource: "plainthings", Kind: "PlainThing", Namespaced: true, StatusSub: true, NoGeneration: true}
+	Kinds      = []*sim.Kind{ThingBeta, NoThingBeta, Thing, NoThing, CThing, Leaf, Widget, CWidget, Other, Gadget, PlainThing}
 )
 
 const LastApplied = "metacontroller.k8s.io/last-applied-configuration"
